@@ -207,6 +207,21 @@ func (r *c13Refcount) run() {
 			// by a deadline in the past, then close
 			_ = v.conn.SetDeadline(time.Now())
 			c.Fault("handle-deadline-now-before-close")
+			if !last && t.Bias(1, 2, "sibling-writes-in-the-window") {
+				// a sibling sends while the closing handle's deadline sits on the shared connection: that one write
+				// may time out - it must not cost the sibling the connection (checked after the Close below)
+				var sib *c13H
+				for _, h := range op {
+					if h != v {
+						sib = h
+					}
+				}
+				if sib != nil {
+					_, _ = r.writeOK(sib) // to the transport's own peer address; the outcome of this one write is not judged
+					synctest.Wait()
+					c.Fault("sibling-write-under-foreign-deadline")
+				}
+			}
 		}
 		err := v.conn.Close()
 		v.closed = true
